@@ -221,7 +221,7 @@ def run(tier, seed):
   else:
     import random
     rr = random.Random(seed)
-    pool = [c for c in cfgs if c[1].get("bits", 8) <= 6]
+    pool = [c for c in cfgs if c[1].get("bits", 8) <= 6 and not c[1].get("use_real_tanh") and not c[1].get("use_real_sigmoid")]
     rr.shuffle(pool)
     mono = MONO_QUICK + pool[:44]
   r.functions = ["qkeras.quantizers._round_through", "quantized_bits.__call__", "quantized_linear._scale_clip_and_round",
@@ -233,7 +233,9 @@ def run(tier, seed):
               "for linear / plain-ReLU formats, combined with the code-membership clause proved in the same query set" % len(mono),
               "quantized_relu(use_sigmoid=1): reachable codes are every other code, nearest is stated on the 2*step grid; "
               "use_sigmoid with a leaky slope is outside the claim"]
-  r.assumptions = ["platform model and contract stubs as in C01; real tanh/sigmoid monotone (axiom on the stub)"]
+  r.assumptions = ["platform model and contract stubs as in C01",
+                   "the real tanh/sigmoid kernels of the pinned TensorFlow are not monotone at the ulp level (measured), so the "
+                   "monotonicity clause is only claimed for the piece-wise linear (hard) surrogates and the linear/ReLU formats"]
   for i, (cls, kw) in enumerate(cfgs):
     try:
       one_config(r, cls, kw, rng, i, mono=(cls, kw) in mono)
